@@ -493,7 +493,7 @@ func (in *Instance) GenesisFromState(s M) types.GenesisState {
 		SendingAndReceivingMessagesPaused: &types.SendingAndReceivingMessagesPaused{Paused: s["pausedSR"].(bool)},
 		MaxMessageBodySize:                &types.MaxMessageBodySize{Amount: uint64(geti(s, "maxBody"))},
 		NextAvailableNonce:                &types.Nonce{Nonce: t.Nonce(geti(s, "nextNonce"))},
-		SignatureThreshold:                &types.SignatureThreshold{Amount: uint32(geti(s, "threshold"))},
+		SignatureThreshold:                &types.SignatureThreshold{Amount: ThresholdVal(geti(s, "threshold"))},
 	}
 	for _, a := range arr(s, "attesters") {
 		am := a.(map[string]any)
@@ -601,7 +601,7 @@ func (in *Instance) DirectVerify(pre M, msg M) (res string) {
 			res = "panic"
 		}
 	}()
-	if err := keeper.VerifyAttestationSignatures(append([]byte{}, wire...), append([]byte{}, att...), list, uint32(geti(pre, "threshold"))); err != nil {
+	if err := keeper.VerifyAttestationSignatures(append([]byte{}, wire...), append([]byte{}, att...), list, ThresholdVal(geti(pre, "threshold"))); err != nil {
 		return "err"
 	}
 	return "ok"
